@@ -395,8 +395,11 @@ def evaluate(prop: Property, cases: List[Dict[str, Any]]) -> List[Tuple[Dict[str
     return results
 
 
-def shrink_failure(prop: Property, fail: Failure, budget: int = 300) -> Failure:
-    """greedy delta-debugging: keep any smaller case that still fails the same way"""
+def shrink_failure(prop: Property, fail: Failure, budget: int = 300,
+                   spec_spot: Optional[List[Failure]] = None) -> Failure:
+    """greedy delta-debugging: keep any smaller case that still fails the same way; while shrinking a
+    correspondence failure, any candidate on which the executable spec fails (outside the recorded classes) is
+    put into spec_spot: the neighbourhood of a disagreement is where a failing input is most likely"""
     current = fail
     steps = 0
     improved = True
@@ -410,6 +413,8 @@ def shrink_failure(prop: Property, fail: Failure, budget: int = 300) -> Failure:
                 (case, obs, drv, j), = evaluate(prop, [cand])
             except Infra:
                 continue
+            if spec_spot is not None and not j.spec_ok and not j.known:
+                spec_spot.append(Failure("spec", case, obs, drv, j.detail, j.known))
             bad = (not j.spec_ok) if fail.kind == "spec" else (not j.corr_ok)
             if bad and j.known == fail.known:
                 current = Failure(fail.kind, case, obs, drv, j.detail, j.known)
@@ -541,6 +546,17 @@ def main_check(prop: Property, argv: List[str]) -> int:
     known = {k["id"]: k for k in load_known() if k.get("property") == prop.ID}
     violations: List[Tuple[str, Path]] = []
     n = 0
+    shrunk_corr: Optional[Failure] = None
+    if not failures and corr_failures:
+        # only the correspondence is broken so far: search the neighbourhood of the disagreements (their shrink
+        # candidates) for an input on which the property itself fails
+        spot: List[Failure] = []
+        for cf in corr_failures[:12]:
+            got = shrink_failure(prop, cf, budget=120, spec_spot=spot)
+            shrunk_corr = shrunk_corr or got
+            if spot:
+                failures.append(spot[0])
+                break
     if failures:
         f = shrink_failure(prop, failures[0])
         n += 1
@@ -557,7 +573,7 @@ def main_check(prop: Property, argv: List[str]) -> int:
                                    "proofs_ok": status.ok, "broken": status.broken_items(),
                                    "search": {"evaluations": evaluations, "deep": deep}}
         if corr_failures:
-            f = shrink_failure(prop, corr_failures[0])
+            f = shrunk_corr or shrink_failure(prop, corr_failures[0])
             payload.update({"kind": "correspondence", "case": f.case, "implementation_output": f.obs,
                             "lean_output": f.drv, "detail": f.detail,
                             "correspondence_failures": len(corr_failures)})
